@@ -275,6 +275,19 @@ def run_impl(prop_mod: str, stream: Stream, cases: list, seed: int, force_hs=Non
     sharded so that each shard has its own PYTHONHASHSEED."""
     if not cases:
         return []
+    ckey = None
+    if getattr(stream, "cache_key", None) and force_hs is None and os.environ.get("VERIF_NOCACHE") != "1":
+        h = hashlib.sha1()
+        h.update(repo_hash().encode())
+        h.update(json.dumps([stream.cache_key, seed, cases], sort_keys=True, default=str).encode())
+        for f in sorted((VERIF / "vp" / "sched").glob("*.py")):
+            h.update(f.read_bytes())
+        ckey = CACHE / "impl" / (h.hexdigest() + ".json")
+        if ckey.exists():
+            try:
+                return json.loads(ckey.read_text())
+            except Exception:
+                pass
     n = max(1, min(stream.n_hashseeds, len(cases)))
     shards = [list(range(i, len(cases), n)) for i in range(n)]
     results: list = [None] * len(cases)
@@ -324,7 +337,41 @@ def run_impl(prop_mod: str, stream: Stream, cases: list, seed: int, force_hs=Non
 
     with cf.ThreadPoolExecutor(max_workers=NPROC) as ex:
         list(ex.map(one, range(n)))
+    if ckey is not None and not any(isinstance(r, dict) and "__harness_error__" in r for r in results):
+        ckey.parent.mkdir(parents=True, exist_ok=True)
+        tmp = ckey.with_suffix(f".tmp{os.getpid()}")
+        tmp.write_text(json.dumps(results, default=str))
+        os.replace(tmp, ckey)
     return results
+
+
+_REPO_HASH = None
+
+
+def repo_hash() -> str:
+    """content hash of /repo's python sources (cache key: any edit invalidates)"""
+    global _REPO_HASH
+    if _REPO_HASH is None:
+        h = hashlib.sha1()
+        for f in sorted((REPO / "cylc").rglob("*")):
+            if f.is_file() and f.suffix in (".py", ".cylc", ".json", ".jinja2", ".sh", ""):
+                try:
+                    h.update(str(f.relative_to(REPO)).encode())
+                    h.update(f.read_bytes())
+                except OSError:
+                    pass
+        _REPO_HASH = h.hexdigest()
+    return _REPO_HASH
+
+
+def model_hash(coq_import: str) -> str:
+    h = hashlib.sha1()
+    for m in re.findall(r"(?:Model|Base|Gen|Proofs)\.[A-Za-z0-9_]+", coq_import):
+        for r in dep_closure(m.replace(".", "/") + ".v"):
+            f = THEORIES / r
+            if f.exists():
+                h.update(f.read_bytes())
+    return h.hexdigest()
 
 
 # --------------------------------------------------------------------------
@@ -351,8 +398,18 @@ def run_coq_cases(pid: str, stream: Stream, terms: list[str], scratch: Path):
         f.write_text("\n".join(body) + "\n")
         files.append((k, f))
 
+    mh = model_hash(stream.coq_import) if getattr(stream, "cache_key", None) else None
+
     def one(kf):
         k, f = kf
+        cfile = None
+        if mh is not None and os.environ.get("VERIF_NOCACHE") != "1":
+            cfile = CACHE / "coq" / (hashlib.sha1((mh + f.read_text()).encode()).hexdigest() + ".json")
+            if cfile.exists():
+                try:
+                    return k, json.loads(cfile.read_text()), None
+                except Exception:
+                    pass
         rc, out = sh(["coqc", "-Q", str(THEORIES), "Cylc", "-w", "-all", f.name],
                      cwd=scratch, timeout=900)
         if rc != 0:
@@ -361,6 +418,11 @@ def run_coq_cases(pid: str, stream: Stream, terms: list[str], scratch: Path):
         if not m:
             return k, None, "unparsable coqc output: " + out[-1000:]
         idx = [int(x) for x in re.findall(r"\d+", m.group(1))]
+        if cfile is not None:
+            cfile.parent.mkdir(parents=True, exist_ok=True)
+            tmp = cfile.with_suffix(f".tmp{os.getpid()}")
+            tmp.write_text(json.dumps(idx))
+            os.replace(tmp, cfile)
         return k, idx, None
 
     bad, err = [], None
